@@ -9,7 +9,7 @@
    queried before full and split claims in the farm scenarios).
    Statements only. *)
 From MD.Model Require Import Base Ownable Epoch PoolMath Types PoolManager FarmManager Chain.
-From MD.Proofs Require Import WeightProofs FarmProofs RewardProofs FarmCustody FarmCustodyChain ClaimFrame.
+From MD.Proofs Require Import WeightProofs FarmProofs RewardProofs FarmCustody FarmCustodyChain ClaimFrame BankProofs TxFarm.
 
 Theorem C07_reward_formula : forall s f lp recv until lc rs,
   farm_rewards s f lp recv until lc = Ok rs ->
@@ -83,9 +83,25 @@ Theorem C07_rewards_query_equals_claim_in_every_reachable_world : forall g w0 op
     end.
 Proof. exact reachable_claim_pays_what_rewards_quotes. Qed.
 
+(* THE WHOLE TRANSACTION, every bank balance: the Rewards query on the state before a Claim transaction gives exactly what
+   that transaction moves from the farm manager to the claimant; no other balance changes *)
+Theorem C07_claim_transaction_pays_exactly_what_rewards_quotes : forall w sender until funds w',
+  addr_valid w sender = true -> NoDup (map f_id (fm_farms (w_fm w))) ->
+  run_tx w sender FM (WFm (FmClaim until)) funds = Ok w' ->
+  exists total,
+    funds = [] /\ query_rewards w (w_fm w) sender until = aggregate_coins total /\
+    match total with
+    | [] => forall a d, bal (w_bank w') a d = bal (w_bank w) a d
+    | _ => exists agg, query_rewards w (w_fm w) sender until = Ok agg /\
+             forall a d, bal (w_bank w') a d = bal (w_bank w) a d
+                           - ind (String.eqb a FM) (camt agg d) + ind (String.eqb a sender) (camt agg d)
+    end.
+Proof. exact claim_tx_balances. Qed.
+
 Print Assumptions C07_reward_formula.
 Print Assumptions C07_reward_rounding.
 Print Assumptions C07_query_equals_claim_single_lp.
 Print Assumptions C07_claim_moves_cursor.
 Print Assumptions C07_rewards_query_equals_claim_for_any_number_of_lp_tokens.
 Print Assumptions C07_rewards_query_equals_claim_in_every_reachable_world.
+Print Assumptions C07_claim_transaction_pays_exactly_what_rewards_quotes.
